@@ -438,6 +438,60 @@ func kernelCases(c *Ctx) {
 		c.Count(fmt.Sprintf("kernel:boolenc-mode%d", mode))
 		addCase(sb.String(), hex.EncodeToString(out)+" "+rt)
 	}
+	// token buffer (TokenBuffer: pages of 32768 tokens, per-macroblock marks with skipped macroblocks,
+	// stale marks of an earlier pass, replay of each partition in page-aligned chunks) vs direct emission
+	// of the partition's tokens; the last cases cross a page boundary inside and between macroblocks
+	for i := 0; i < 12; i++ {
+		r := rng.Fork()
+		mbW := 1 + r.Intn(5)
+		rows := 1 + r.Intn(6)
+		lg := r.Intn(4)
+		per := r.Pick(0, 3, 12, 40)
+		if i >= 10 {
+			mbW, rows, lg = 3+r.Intn(3), 3+r.Intn(3), 1+r.Intn(2)
+			per = 120000 / (mbW * rows)
+		}
+		total := mbW * rows
+		toks := make([][][2]uint8, total)
+		skipped := make([]bool, total)
+		var sb strings.Builder
+		fmt.Fprintf(&sb, "tokbuf %d %d", mbW, lg)
+		count := 0
+		for k := 0; k < total; k++ {
+			if r.Intn(4) == 0 {
+				skipped[k] = true
+				sb.WriteString(" -")
+				continue
+			}
+			n := 0
+			if per > 0 {
+				n = r.Intn(per + 1)
+			}
+			if n == 0 {
+				sb.WriteString(" .")
+				continue
+			}
+			raw := make([]byte, 0, 2*n)
+			for t := 0; t < n; t++ {
+				b, p := uint8(r.Intn(2)), uint8(r.Pick(1, 128, 255, r.Intn(256), r.Intn(256)))
+				toks[k] = append(toks[k], [2]uint8{b, p})
+				raw = append(raw, b, p)
+			}
+			count += n
+			sb.WriteString(" " + hex.EncodeToString(raw))
+		}
+		parts := webp.VerifLossyTokenBufferRun(mbW, toks, skipped, 1<<uint(lg))
+		hs := make([]string, len(parts))
+		for k, p := range parts {
+			hs[k] = hex.EncodeToString(p)
+		}
+		c.D.Evaluations++
+		if count > 32768 {
+			c.Count("kernel:tokbuf-crosses-page")
+		}
+		c.Count(fmt.Sprintf("kernel:tokbuf-parts%d", 1<<uint(lg)))
+		addCase(sb.String(), strings.Join(hs, ","))
+	}
 	// clip tables: complete sweep
 	s1, s2, c1, a0 := webp.VerifDspClipTables()
 	clamp := func(v, lo, hi int) int {
